@@ -1,7 +1,9 @@
 ''' tcpcl/session.py: the transfer-message handlers of class ContactHandler
-(recv_xfer_ack, recv_xfer_refuse, recv_sess_term), with the Messenger base
-guards they call first and _tx_teardown, as Gallina functions over the abstract
-handler state of coq/Model/TcpclHandlerSt.v -> coq/Gen/TcpclHandlers.v.
+(recv_xfer_ack, recv_xfer_refuse, recv_sess_term, recv_xfer_data), with the
+Messenger base guards they call first, _tx_teardown, _rx_setup and _rx_teardown,
+as Gallina functions over the abstract handler state of
+coq/Model/TcpclHandlerSt.v -> coq/Gen/TcpclHandlers.v; and the control decisions
+described further down -> coq/Gen/TcpclControl.v.
 
 Fail closed: every statement and expression must have one of the shapes listed
 below, anything else raises Shape.
@@ -22,6 +24,16 @@ Statements
   self.send_bundle_finished(str(<id>), <len>, <text>)           ESig SigSendFinished [PStrNum id; PInt len; PStr tag]
   self.send_bundle_intermediate(str(<id>), <len>)               ESig SigSendInter [PStrNum id; PInt len]
   self._tx_teardown()                                           gen_tx_teardown (translated from its body)
+  self._rx_setup(<id>, None) / self._rx_teardown()              gen_rx_setup / gen_rx_teardown (bodies must match exactly)
+  self._rx_tmp.file.write(data)                                 the received length grows by len(data) (the parameter
+                                                                `data` of the generated function IS that length)
+  L = self._rx_tmp.file.tell()                                  local integer L := received length
+  X = self._rx_tmp                                              X is the item being received (its id is fixed here)
+  self._rx_bundles.append(X)                                    skipped (no abstract counterpart)
+  self._rx_map[X.transfer_id] = X                               rx_map: id -> received length
+  self.send_xfer_ack(<id>, <len>, <flags>)                      h_sent ++ [MXferAck flags id len]
+  self.recv_bundle_finished(str(<id>), <len>, <text>) / recv_bundle_intermediate(str(<id>), <len>)
+                                                                ESig SigRecvFinished / SigRecvInter
   self._check_sess_term()                                       h_check := true
   while self._tx_pend_start: X = self._tx_pend_start.pop(0); <simple statements>
                                                                 fold of the per-item function over the queue,
@@ -36,7 +48,7 @@ Conditions
   not / and / or; X is None / is not None (item variable or self._tx_tmp);
   A in / not in self._tx_pend_ack / self._tx_pend_start (A not an item variable: false);
   flags & messages.TransferSegment.Flag.END / START;
-  self._tx_tmp.transfer_id == <id> / != ; <id> == <id>;
+  self._tx_tmp.transfer_id == <id> / != ; self._rx_tmp is None; self._rx_tmp.transfer_id == <id> / != ; <id> == <id>;
   self._in_sess, self._in_conn, self._do_send_ack_final, self._do_send_ack_inter.
 '''
 import ast
